@@ -426,6 +426,16 @@ static void gen_c11(const std::string& tier, std::vector<Work>& W) {
                 // (2) a signature other than the listed one offered for a mocked key is not accepted on the strength of the option
                 for (auto& p : L) { bytes sc = C({P(p.second), O(0xac)}); bool listed = false; for (auto& q : L) if (q.first == s3 && q.second == p.second) listed = true; if (!listed) compare_explicit(c, sc, {s3}, fl & ~(F_STRICTENC | F_DERSIG | F_LOW_S | F_NULLFAIL), "unlisted signature for a mocked key list=" + ldesc, "mock:other-signature", V, S, L, with_tx, false, "c11"); }
             }
+            // (2b) a signature listed for one key offered to another mocked key it is not listed with
+            for (uint32_t fl : {0u}) for (auto& pa : L) for (auto& pb : L) {
+                if (pa.second == pb.second) continue;
+                bool listed = false; for (auto& q : L) if (q.first == pa.first && q.second == pb.second) listed = true;
+                if (listed) continue;
+                bytes sc = C({P(pb.second), O(0xac)});
+                compare_explicit(c, sc, {pa.first}, fl, "signature listed for another key offered to a mocked key list=" + ldesc, "mock:cross-pair", V, S, L, with_tx, false, "c11");
+                bytes sc2 = C({O(0x51), P(pb.second), O(0x51), O(0xae)});
+                compare_explicit(c, sc2, {{}, pa.first}, fl, "signature listed for another key offered to a mocked key in multisig list=" + ldesc, "mock:cross-pair-multisig", V, S, L, with_tx, false, "c11");
+            }
             // (3) non-interference: scripts that do not involve a mocked key run exactly as without the option (really valid signature by an unlisted key; garbage by an unlisted key)
             if (with_tx) for (size_t ti : {size_t(0), size_t(2), size_t(8), size_t(12)}) for (uint32_t fl : {0u, F_STANDARD}) {
                 std::vector<gen::Key> k3 = {keys[2], gen::make_key(5), gen::make_key(6)};
